@@ -158,3 +158,132 @@ Qed.
 
 Lemma missing_not_existing i : missing_input_enc <> existing_input_enc i.
 Proof. apply enc_kind_neq. cbn. discriminate. Qed.
+
+(* ------------------------------------------------------------------ shape of the token lists *)
+
+Definition sub_tok (filt : bool) (p n : bytes) (c : stree) : tok :=
+  match c with
+  | SMissing => TNum nil_const
+  | SNode ni _ _ => if isdir ni then TSub VDirectoryTreeSignature (tree_toks filt (path_append p n) c) else TNum nil_const
+  end.
+
+Definition child_toks (filt : bool) (p : bytes) (nc : bytes * stree) : list tok :=
+  [TBytes (node_value_enc (snd nc)); sub_tok filt p (fst nc) (snd nc)].
+
+Lemma tree_toks_missing filt p : tree_toks filt p SMissing = [TStr p; TBytes missing_input_enc].
+Proof. reflexivity. Qed.
+
+Lemma tree_toks_node filt p ni si cs :
+  tree_toks filt p (SNode ni si cs) =
+  TStr p :: TBytes (dir_value_enc filt (SNode ni si cs)) ::
+  (if filt && negb (isdir si) then [] else flat_map (child_toks filt p) cs).
+Proof.
+  cbn [tree_toks]. do 2 f_equal. destruct (filt && negb (isdir si)); [reflexivity|].
+  apply flat_map_ext. intros [n c]. unfold child_toks, sub_tok. cbn [fst snd]. destruct c; reflexivity.
+Qed.
+
+Lemma flat_map_pairs_inj {A : Type} (f g : A -> list tok) l1 l2 :
+  length l1 = length l2 ->
+  (forall a, length (f a) = 2%nat) -> (forall a, length (g a) = 2%nat) ->
+  flat_map f l1 = flat_map g l2 -> Forall2 (fun a b => f a = g b) l1 l2.
+Proof.
+  revert l2. induction l1 as [|a l1 IH]; intros [|b l2] Hlen Hf Hg E; try discriminate; [constructor|].
+  cbn [flat_map] in E. cbn [length] in Hlen.
+  assert (Hab : f a = g b /\ flat_map f l1 = flat_map g l2).
+  { specialize (Hf a). specialize (Hg b).
+    destruct (f a) as [|x1 [|x2 [|? ?]]]; try discriminate.
+    destruct (g b) as [|y1 [|y2 [|? ?]]]; try discriminate.
+    cbn [app] in E. injection E as E1 E2 E3. subst. auto. }
+  destruct Hab as [Hab Hrest]. constructor; [exact Hab|].
+  apply IH; auto.
+Qed.
+
+Lemma toks2_inj (a a' : tok) (b b' : bytes) (l l' : list tok) :
+  a :: TBytes b :: l = a' :: TBytes b' :: l' -> b = b' /\ l = l'.
+Proof. intros H. injection H as _ Hb Hl. auto. Qed.
+
+Lemma tsub_inj k (l l' : list tok) : TSub k l = TSub k l' -> l = l'.
+Proof. intros H. injection H as H. exact H. Qed.
+
+Lemma pair_toks_inj (b b' : bytes) (x x' : tok) : [TBytes b; x] = [TBytes b'; x'] -> b = b' /\ x = x'.
+Proof. intros H. injection H as Hb Hx. auto. Qed.
+
+(* ------------------------------------------------------------------ the tree signature sees exactly the Node records *)
+
+Lemma eff_node_value s1 s2 : eff s1 = eff s2 -> node_value_enc s1 = node_value_enc s2.
+Proof. destruct s1, s2; cbn [eff]; intros E; try discriminate; [reflexivity|]. injection E as E _. subst. reflexivity. Qed.
+
+Lemma names_eff_children (cs : list (bytes * stree)) :
+  names (map (fun nc : bytes * stree => (fst nc, eff (snd nc))) cs) = names cs.
+Proof. apply names_map_snd. Qed.
+
+(* equal records -> equal tokens (unfiltered) *)
+Lemma tree_toks_of_eff s1 : forall s2 p, eff s1 = eff s2 -> tree_toks false p s1 = tree_toks false p s2.
+Proof.
+  induction s1 as [|ni1 si1 cs1 IH] using stree_ind'; intros [|ni2 si2 cs2] p E; cbn [eff] in E; try discriminate; [reflexivity|].
+  injection E as Ei Ec. subst ni2.
+  rewrite !tree_toks_node. cbn [andb dir_value_enc].
+  assert (Hn : names cs1 = names cs2).
+  { rewrite <- (names_eff_children cs1), <- (names_eff_children cs2), Ec. reflexivity. }
+  rewrite Hn. do 2 f_equal.
+  clear Hn. revert cs2 Ec. induction cs1 as [|[n1 c1] cs1 IHl]; intros [|[n2 c2] cs2] Ec; cbn [map] in Ec; try discriminate; [reflexivity|].
+  cbn [fst snd] in Ec. injection Ec as En Ece Ecs. subst n2.
+  inversion IH as [|? ? IHc IHcs]; subst.
+  cbn [flat_map]. f_equal; [| apply IHl; assumption].
+  unfold child_toks. cbn [fst snd]. rewrite (eff_node_value _ _ Ece). do 2 f_equal.
+  unfold sub_tok. cbn [snd] in IHc.
+  destruct c1 as [|a1 b1 d1], c2 as [|a2 b2 d2]; cbn [eff] in Ece; try discriminate; [reflexivity|].
+  injection Ece as Ea Ed. subst a2.
+  destruct (isdir a1); [|reflexivity].
+  f_equal. apply IHc. cbn [eff]. rewrite Ed. reflexivity.
+Qed.
+
+Lemma wf_s_children (cs : list (bytes * stree)) :
+  Forall (fun nc : bytes * vtree => wf_v (snd nc)) (map (fun nc : bytes * stree => (fst nc, eff (snd nc))) cs) ->
+  Forall (fun nc : bytes * stree => wf_s (snd nc)) cs.
+Proof.
+  induction cs as [|[n c] cs IH]; intros H; [constructor|].
+  cbn [map fst snd] in H. inversion H as [|? ? Hh Ht]; subst. constructor; [exact Hh | apply IH; exact Ht].
+Qed.
+
+(* equal tokens -> equal records (unfiltered), for well-formed states *)
+Lemma tree_toks_inj s1 : forall s2 p, wf_s s1 -> wf_s s2 ->
+  tree_toks false p s1 = tree_toks false p s2 -> eff s1 = eff s2.
+Proof.
+  induction s1 as [|ni1 si1 cs1 IH] using stree_ind'; intros [|ni2 si2 cs2] p W1 W2 E.
+  - reflexivity.
+  - exfalso. rewrite tree_toks_missing, tree_toks_node in E. apply toks2_inj in E. destruct E as [E _].
+    cbn [dir_value_enc] in E. revert E. apply enc_kind_neq. cbn. discriminate.
+  - exfalso. rewrite tree_toks_missing, tree_toks_node in E. apply toks2_inj in E. destruct E as [E _].
+    cbn [dir_value_enc] in E. symmetry in E. revert E. apply enc_kind_neq. cbn. discriminate.
+  - rewrite !tree_toks_node in E. cbn [andb dir_value_enc] in E. apply toks2_inj in E. destruct E as [Ed Ec].
+    unfold wf_s in W1, W2. cbn [eff] in W1, W2.
+    inversion W1 as [|? ? Wi1 Wd1 Wn1 Wl1 Wc1]; subst. inversion W2 as [|? ? Wi2 Wd2 Wn2 Wl2 Wc2]; subst.
+    rewrite names_eff_children in Wn1, Wl1, Wn2, Wl2.
+    apply enc_value_injective in Ed; [| apply wf_contents_value; assumption | apply wf_contents_value; assumption].
+    injection Ed as Ei En. subst ni2.
+    cbn [eff]. f_equal.
+    apply wf_s_children in Wc1. apply wf_s_children in Wc2.
+    assert (Hlen : length cs1 = length cs2).
+    { unfold names in En. rewrite <- (map_length fst cs1), <- (map_length fst cs2), En. reflexivity. }
+    apply flat_map_pairs_inj in Ec; [| exact Hlen | reflexivity | reflexivity].
+    clear Hlen Wd1 Wd2 Wn1 Wn2 Wl1 Wl2 W1 W2.
+    revert cs2 En Ec Wc2. induction cs1 as [|[n1 c1] cs1 IHl]; intros [|[n2 c2] cs2] En Ec Wc2; cbn [names map] in En; try discriminate; [reflexivity|].
+    cbn [fst] in En. injection En as En Ens. subst n2.
+    inversion Ec as [|? ? ? ? Eh Et]; subst. inversion IH as [|? ? IHc IHcs]; subst.
+    inversion Wc1 as [|? ? Wc1h Wc1t]; subst. inversion Wc2 as [|? ? Wc2h Wc2t]; subst.
+    cbn [map fst snd]. f_equal; [| apply IHl; assumption].
+    f_equal. cbn [snd] in IHc, Wc1h, Wc2h.
+    unfold child_toks in Eh. cbn [fst snd] in Eh. apply pair_toks_inj in Eh. destruct Eh as [Ev Es].
+    destruct c1 as [|a1 b1 d1], c2 as [|a2 b2 d2]; cbn [node_value_enc] in Ev.
+    + reflexivity.
+    + exfalso. exact (missing_not_existing _ Ev).
+    + exfalso. symmetry in Ev. exact (missing_not_existing _ Ev).
+    + unfold wf_s in Wc1h, Wc2h. cbn [eff] in Wc1h, Wc2h.
+      inversion Wc1h as [|? ? Wa1 Wdd1 _ _ _]; subst. inversion Wc2h as [|? ? Wa2 Wdd2 _ _ _]; subst.
+      apply existing_enc_inj in Ev; [| assumption | assumption]. subst a2.
+      unfold sub_tok in Es. destruct (isdir a1) eqn:Hd.
+      * apply tsub_inj in Es. apply IHc in Es; assumption.
+      * cbn [eff]. f_equal.
+        specialize (Wdd1 Hd). specialize (Wdd2 Hd). rewrite Wdd1, Wdd2. reflexivity.
+Qed.
